@@ -1,8 +1,17 @@
 // C20 correspondence harness: a scripted registry (h_c16_util.h) is run by the real TestRegistry with
 // the real TeamCityTestOutput; everything the output writes reaches PlatformSpecificFPuts, which is
 // captured here.  Observation at `run`:  out <hex of the whole stream>
+//
+// Real-I/O sub-mode (`realio` before `run`): the registry is run through the real CommandLineTestRunner with
+// `-oteamcity` (plus -v/-vv, the name filter flag and, after `separate`, `-p`) in a grand-child process whose
+// stdout is a pipe and fully buffered, with PlatformSpecificFPuts / PlatformSpecificFlush at the platform's real
+// implementations (fputs / fflush on stdout); the bytes that arrive at the other end of the pipe are reported:
+//   out <hex>      (compared with the writer model byte for byte, judged by the oracle)
+//   outp <hex>     for a `-p` run (every test in its own process: judged by the oracle only)
+//   crash realio-child <what>   when the grand-child dies
 #include "h_c16_util.h"
 #include "CppUTest/TeamCityTestOutput.h"
+#include "CppUTest/CommandLineTestRunner.h"
 
 namespace {
 
@@ -13,14 +22,68 @@ void capture_fputs(const char* s, PlatformSpecificFile f) {
 }
 void no_flush() {}
 
+void (*g_real_fputs)(const char*, PlatformSpecificFile) = 0;
+void (*g_real_flush)() = 0;
+
+void run_real_io(const vo::Registry& reg) {
+    fflush(stdout); fflush(stderr);
+    int fd[2];
+    if (pipe(fd) != 0) { vh::emit("crash realio-child no-pipe"); return; }
+    pid_t pid = fork();
+    if (pid == 0) {
+        alarm(30);
+        close(fd[0]);
+        dup2(fd[1], 1);
+        close(fd[1]);
+        setvbuf(stdout, 0, _IOFBF, 0);          // what stdout is when it goes to a pipe or a file
+        PlatformSpecificFPuts = g_real_fputs;
+        PlatformSpecificFlush = g_real_flush;
+        vo::stub_clock();
+        int rc;
+        {
+            vo::Built b(reg);
+            b.reg.setCurrentRegistry(&b.reg);
+            std::vector<std::string> args;
+            args.push_back("h_c20");
+            args.push_back("-oteamcity");
+            if (reg.verbosity == 1) args.push_back("-v");
+            if (reg.verbosity == 2) args.push_back("-vv");
+            if (reg.separate) args.push_back("-p");
+            if (reg.has_filter) {
+                args.push_back(reg.strict ? (reg.invert ? "-xsn" : "-sn") : (reg.invert ? "-xn" : "-n"));
+                args.push_back(reg.filter);
+            }
+            std::vector<const char*> argv;
+            for (size_t i = 0; i < args.size(); i++) argv.push_back(args[i].c_str());
+            rc = CommandLineTestRunner::RunAllTests((int) argv.size(), &argv[0]);
+            b.reg.setCurrentRegistry(0);
+        }
+        (void) rc;
+        fflush(stdout);
+        _exit(0);
+    }
+    close(fd[1]);
+    std::string data;
+    char buf[65536]; ssize_t n;
+    while ((n = read(fd[0], buf, sizeof buf)) > 0 || (n < 0 && errno == EINTR)) if (n > 0) data.append(buf, (size_t) n);
+    close(fd[0]);
+    int st = 0;
+    while (waitpid(pid, &st, 0) < 0 && errno == EINTR) { }
+    vh::emit("%s %s", reg.separate ? "outp" : "out", vh::hex(data).c_str());
+    if (WIFSIGNALED(st)) vh::emit("crash realio-child signal %d", WTERMSIG(st));
+    else if (WIFEXITED(st) && WEXITSTATUS(st) != 0) vh::emit("crash realio-child exit %d", WEXITSTATUS(st));
+}
+
 void run_case(const vh::Case& c) {
     vo::Registry reg;
+    if (!g_real_fputs) { g_real_fputs = PlatformSpecificFPuts; g_real_flush = PlatformSpecificFlush; }
     PlatformSpecificFPuts = capture_fputs;
     PlatformSpecificFlush = no_flush;
     for (size_t i = 0; i < c.ops.size(); i++) {
         const vh::Words& w = c.ops[i];
         if (w[0] == "run" && w.size() == 1) {
             vh::emit_op("run");
+            if (reg.realio) { run_real_io(reg); continue; }
             g_stream.clear();
             {
                 TeamCityTestOutput out;
